@@ -194,7 +194,10 @@ pub(crate) fn cas_all_contract<T: Atomic + PartialEq>(s: &[Atom<T>], current: T,
 // interference between the load and the CAS (then the retry runs undisturbed).
 // ---------------------------------------------------------------------------------------------
 pub(crate) mod env {
-    pub const MAXW: usize = 8;
+    pub const MAXW: usize = 32;
+    pub const MAXH: usize = 4;
+    /// 64-bit words per bitfield (4K geometry)
+    pub const WPB: usize = 8;
     pub static mut ON: bool = false;
     pub static mut BASE: usize = 0;
     pub static mut NWORDS: usize = 0;
@@ -205,9 +208,9 @@ pub(crate) mod env {
     /// this thread has reserved (decremented, bits not yet claimed), released (bits cleared, counter
     /// not yet incremented) and the number of bits it owns.
     pub static mut UNITS_ON: bool = false;
-    pub static mut RES: usize = 0;
-    pub static mut PEND: usize = 0;
-    pub static mut OWNED_BITS: usize = 0;
+    pub static mut RES: [usize; MAXH] = [0; MAXH];
+    pub static mut PEND: [usize; MAXH] = [0; MAXH];
+    pub static mut OWNED_BITS: [usize; MAXH] = [0; MAXH];
 
     /// Raw accesses go through the original pointer (no integer-to-pointer cast: CBMC would have to
     /// consider every object for such a pointer).
@@ -271,15 +274,17 @@ pub(crate) mod env {
                     if claim {
                         OWN[w] |= diff << shift;
                         if UNITS_ON {
-                            kani::assert(RES >= k, "C01/C05 guarantee: bits are claimed only against counter units reserved before (counter first, then bits)");
-                            RES -= k;
-                            OWNED_BITS += k;
+                            let h = w / WPB;
+                            kani::assert(RES[h] >= k, "C01/C05 guarantee: bits are claimed only against counter units reserved before (counter first, then bits)");
+                            RES[h] -= k;
+                            OWNED_BITS[h] += k;
                         }
                     } else {
                         OWN[w] &= !(diff << shift);
                         if UNITS_ON {
-                            OWNED_BITS -= k;
-                            PEND += k;
+                            let h = w / WPB;
+                            OWNED_BITS[h] -= k;
+                            PEND[h] += k;
                         }
                     }
                 }
@@ -298,39 +303,54 @@ pub(crate) mod env {
 pub(crate) mod cenv {
     use super::env;
     pub static mut ON: bool = false;
+    /// address of entry 0 of the table and number of entries under the environment
     pub static mut PTR: usize = 0;
+    pub static mut N: usize = 1;
     pub const LEN: u16 = crate::HUGE_FRAMES as u16;
+    fn locate(p: *const u8) -> Option<usize> {
+        let (b, n) = unsafe { (PTR, N) };
+        let a = p as usize;
+        if unsafe { ON } && a >= b && a < b + 2 * n { Some((a - b) / 2) } else { None }
+    }
+    fn units(i: usize) -> usize {
+        unsafe { env::RES[i] + env::PEND[i] + env::OWNED_BITS[i] }
+    }
     pub fn interfere(p: *const u8) {
-        unsafe {
-            if ON && p as usize == PTR && env::BUDGET > 0 && kani::any() {
-                let e: u16 = kani::any();
-                let units = env::RES + env::PEND + env::OWNED_BITS;
-                kani::assume(e == u16::MAX || e <= LEN);
-                kani::assume(units == 0 || (e != u16::MAX && e as usize + units <= LEN as usize));
-                *(p as *mut u16) = e;
-                env::BUDGET -= 1;
+        if let Some(i) = locate(p) {
+            unsafe {
+                if env::BUDGET > 0 && kani::any() {
+                    let e: u16 = kani::any();
+                    kani::assume(admissible_at(i, e));
+                    *(p as *mut u16) = e;
+                    env::BUDGET -= 1;
+                }
             }
         }
     }
-    /// the entry as this thread may find it at its first access (same constraint as an environment step)
+    /// an entry value the rely allows for entry i (also the constraint on the initial state)
+    pub fn admissible_at(i: usize, e: u16) -> bool {
+        let u = units(i);
+        (e == u16::MAX || e <= LEN) && (u == 0 || (e != u16::MAX && e as usize + u <= LEN as usize))
+    }
     pub fn admissible(e: u16) -> bool {
-        let units = unsafe { env::RES + env::PEND + env::OWNED_BITS };
-        (e == u16::MAX || e <= LEN) && (units == 0 || (e != u16::MAX && e as usize + units <= LEN as usize))
+        admissible_at(0, e)
     }
     pub fn guarantee(p: *const u8, old: u16, new: u16) {
-        unsafe {
-            if ON && p as usize == PTR && old != new {
-                kani::assert(old != u16::MAX && new != u16::MAX, "C01 guarantee: the small-order paths never write the whole-huge-frame marker");
-                if new < old {
-                    env::RES += (old - new) as usize;
-                } else {
-                    // units come back from released bits (a free, or the rollback of a partial multi-row
-                    // claim) and from reservations that were never turned into bits (undo)
-                    let k = (new - old) as usize;
-                    kani::assert(env::PEND + env::RES >= k, "C05 guarantee: the counter is incremented only by units this thread reserved or released");
-                    let from_pend = if env::PEND >= k { k } else { env::PEND };
-                    env::PEND -= from_pend;
-                    env::RES -= k - from_pend;
+        if let Some(i) = locate(p) {
+            if old != new {
+                unsafe {
+                    kani::assert(old != u16::MAX && new != u16::MAX, "C01 guarantee: the small-order paths never write the whole-huge-frame marker");
+                    if new < old {
+                        env::RES[i] += (old - new) as usize;
+                    } else {
+                        // units come back from released bits (a free, or the rollback of a partial multi-row
+                        // claim) and from reservations that were never turned into bits (undo)
+                        let k = (new - old) as usize;
+                        kani::assert(env::PEND[i] + env::RES[i] >= k, "C05 guarantee: the counter is incremented only by units this thread reserved or released");
+                        let from_pend = if env::PEND[i] >= k { k } else { env::PEND[i] };
+                        env::PEND[i] -= from_pend;
+                        env::RES[i] -= k - from_pend;
+                    }
                 }
             }
         }
